@@ -124,7 +124,8 @@ def main():
                 shutil.copy(sanity, os.path.join(dst, "sanity.py"))
             meta = dict(meta)
             suite = ("pass" if report.get("suite_passes_with_change") else "not run/fail") + " (%s)" % report.get("suite_tail")
-            old = (meta.get("verified") or {}).get("suite", "")
+            prev_verified = meta.get("verified")
+            old = (prev_verified or {}).get("suite", "")
             if args.skip_suite and old.startswith("pass"):
                 suite = old         # re-run against later checks: keep the suite result recorded when it was made
             meta["verified"] = {
@@ -135,6 +136,8 @@ def main():
                                for r in rs] for c, rs in res.items()},
                 "loud": loud,
             }
+            if (prev_verified or {}).get("adjudication"):
+                meta["verified"]["adjudication"] = prev_verified["adjudication"]   # written by hand: keep it
             json.dump(meta, open(os.path.join(dst, "meta.json"), "w"), indent=1)
         return 1 if loud else 0
     finally:
